@@ -126,7 +126,7 @@ def subst(s, st, out):
     return s.replace('@OUT', out).replace('@ST', st)
 
 
-def run_case(case, base=None):
+def run_case(case, base=None, marks=False):
     """Returns (bad, info)."""
     import os
     import shutil
@@ -149,6 +149,8 @@ def run_case(case, base=None):
         _REC['armed'] = True
         raised = None
         result = None
+        if marks:
+            os.path.exists('/VLAB-OP-BEGIN')     # visible in an strace of this process
         try:
             if case['op'] == 'exists':
                 result = storage.exists(key)
@@ -168,6 +170,8 @@ def run_case(case, base=None):
             raised = type(ex).__name__
         finally:
             _REC['armed'] = False
+            if marks:
+                os.path.exists('/VLAB-OP-END')
         events = list(_REC['events'])
         after = snapshot(base)
         bad = []
@@ -243,8 +247,16 @@ def strace_batch(rep, cases):
         marks = re.compile(r'"([^"]*)"')
         writes = ('O_WRONLY', 'O_RDWR', 'O_CREAT', 'unlink', 'rmdir', 'rename', 'mkdir', 'truncate', 'symlink', 'link(')
         n = 0
+        inside = {}
         for ln in open(trace, errors='replace'):
-            if '/sb/' not in ln or ' = -1 ' in ln:
+            pid = ln.split(' ', 1)[0]
+            if 'VLAB-OP-BEGIN' in ln:
+                inside[pid] = True
+                continue
+            if 'VLAB-OP-END' in ln:
+                inside[pid] = False
+                continue
+            if not inside.get(pid) or '/sb/' not in ln or ' = -1 ' in ln:
                 continue
             n += 1
             call = ln.split('(', 1)[0].split()[-1]
@@ -318,4 +330,4 @@ if __name__ == '__main__':
     for i, c in enumerate(cases):
         b = os.path.join(root, str(i))
         os.makedirs(b)
-        run_case(c, base=b)
+        run_case(c, base=b, marks=True)
